@@ -86,6 +86,7 @@ func (k *Keyer) baseKey(v ssa.Value) string {
 
 // Key returns the canonical variable name of v.
 func (k *Keyer) Key(v ssa.Value) string {
+	v = resolveLocal(v)
 	switch x := v.(type) {
 	case *ssa.UnOp:
 		if x.Op == token.MUL {
@@ -108,6 +109,7 @@ func (k *Keyer) Key(v ssa.Value) string {
 
 // TermOf decomposes v into var+const (through conversions and +/- constants).
 func (k *Keyer) TermOf(v ssa.Value) Term {
+	v = resolveLocal(v)
 	switch x := v.(type) {
 	case *ssa.Const:
 		if c, ok := constInt(x); ok {
